@@ -7,7 +7,8 @@ UNIMOCK_ADT = "unimock::Unimock"
 
 
 def last_seg(path):
-    return path.split("::")[-1]
+    seg = path.split("::")[-1]
+    return seg[2:] if seg.startswith("r#") else seg
 
 
 def is_impl_adt(t):
